@@ -731,3 +731,12 @@ def ga(ctx):
 
 
 RULES.append(ga)
+
+
+@rule("W13", doc="no panic from a non-injective completed slot map: every uncovered slot gets its own Slot::fresh() (C03.H10 fresh-per-completed-slot) — a repeated value fails the bijection assertions of AppliedId::new / compose in assertion builds and corrupts the stored e-node otherwise")
+def w13_h10(ctx):
+    from . import c03
+    c03.h10(ctx)
+
+
+RULES.append(w13_h10)
